@@ -78,6 +78,39 @@ def fsi(tpl, rid):
     return tpl.replace("{sys_name}", str(rid)).replace("{router_ip}", "IP").replace("{router_port}", "PORT")
 
 
+SORT_KEYS = ["addr", "sys_name", "sys_desc", "state", "peers_up", "peers_up_eor_capable", "peers_up_dumping", "peers_up_eor_capable_pc",
+             "peers_up_dumping_pc", "invalid_messages", "soft_parse_errors", "hard_parse_errors"]
+
+
+def qvalue(rng, good):
+    """a query value: an accepted keyword, or text made of markup pieces (sometimes invalid UTF-8)"""
+    if rng.chance(35):
+        return ufield(rng.choice(good))
+    if rng.chance(10):
+        return tlv(rng)[0]
+    t = text(rng, 12)
+    if rng.chance(20):
+        t = rng.choice(good) + t
+    return ufield(t.encode("utf-8", "replace").decode("utf-8"))
+
+
+def gen_query(rng):
+    """Q op: decoded query pairs for GET <api>?..; the rejected value is what the 400 answer quotes"""
+    pairs = []
+    if rng.chance(75):
+        name = rng.weighted([("sort_by", 85), ("sort_by[<b>]", 8), ("sort_by]x", 4), ("sort-by", 3)])
+        pairs += [ufield(name), qvalue(rng, SORT_KEYS)]
+    if rng.chance(55):
+        pairs += [ufield(rng.weighted([("sort_order", 90), ("sort_order[\"]", 10)])), qvalue(rng, ["asc", "desc"])]
+    if rng.chance(15):
+        pairs += [ufield(rng.choice(["x", "<i>", "sort"])), qvalue(rng, ["1"])]
+    if rng.chance(20) and len(pairs) >= 4:
+        pairs = pairs[2:4] + pairs[0:2] + pairs[4:]
+    if not pairs:
+        pairs = [ufield("sort_by"), ufield("<script>alert(1)</script>")]
+    return "Q " + " ".join(pairs)
+
+
 def gen_case(rng):
     ops = []
     api, tpl = "/routers/", "{sys_name}"
@@ -108,9 +141,11 @@ def gen_case(rng):
                 ops.append("P %d %s %d" % (k, p[0], p[1]))
     renders = []
     for _ in range(rng.range(2, 6)):
-        kind = rng.weighted([("L", 30), ("I", 55), ("M", 10), ("W", 5)])
+        kind = rng.weighted([("L", 22), ("Q", 18), ("I", 47), ("M", 9), ("W", 4)])
         if kind == "L":
             renders.append("L")
+        elif kind == "Q":
+            renders.append(gen_query(rng))
         elif kind == "M":
             renders.append("M")
         elif kind == "W":
@@ -142,7 +177,7 @@ META = {0x3c, 0x3e, 0x22, 0x27, 0x26}
 def has_meta(case):
     for op in case.split(";"):
         t = op.split()
-        if t and t[0] in ("R", "E", "I"):
+        if t and t[0] in ("R", "E", "I", "Q"):
             for f in t[1:]:
                 for g in f.split(","):
                     cp = g.split(":", 1)[1] if g.startswith("b") and ":" in g else (g[1:] if g.startswith("u") else "")
@@ -152,15 +187,19 @@ def has_meta(case):
 
 
 def nontrivial(case, out):
-    return ("L200" in out or "I200" in out) and has_meta(case)
+    return ("L200" in out or "I200" in out or "Q200" in out or "Q400" in out) and has_meta(case)
 
 
 def classify(case, out):
     ks = []
     toks = out.split()
-    for p in ("L200", "I200", "I-"):
+    for p in ("L200:html", "I200:html", "I-", "Q200:html", "Q-"):
         if p in toks:
             ks.append("page:" + p)
+    if any(t.startswith("Q400:") for t in toks):
+        ks.append("error-answer:400")
+        if any(op.startswith("Q ") and has_meta(op) for op in case.split(";")):
+            ks.append("error-answer-quotes-markup")
     if any(t.startswith("M:") for t in toks):
         ks.append("metrics")
     if any(t.startswith("W:") for t in toks):
@@ -201,6 +240,23 @@ def corpus():
     ]
 
 
+_corpus0 = corpus
+
+
+def corpus():
+    h = ufield("<img src=x onerror=alert(1)>")
+    return _corpus0() + [
+        # every answer of the list endpoint, not only the page: the 400 quotes the rejected value (seeded C19-c2: as text/html)
+        "Q %s %s;Q %s %s;Q %s %s %s %s;Q %s %s;L" % (ufield("sort_by"), h, ufield("sort_order"), h, ufield("sort_by"), ufield("addr"),
+                                                   ufield("sort_order"), ufield("\"><b>"), ufield("sort_by"), ufield("peers_up")),
+        "R 10.0.0.1 u3c.73.3e u64 -;N 10.0.0.2;Q %s %s %s %s;Q %s %s;Q %s bff3c:fffd.3c;Q %s %s" % (
+            ufield("sort_by"), ufield("sys_name"), ufield("sort_order"), ufield("desc"), ufield("sort_by[<b>]"), ufield("</pre><script>"),
+            ufield("sort_by"), ufield("sort_order"), ufield("")),
+        "C u2f.72.22.78.2f u72.74.72.2d.7b.73.79.73.5f.6e.61.6d.65.7d;R 10.0.0.1 u72 u64 -;Q %s %s;Q %s %s" % (
+            ufield("sort_by"), ufield("state"), ufield("sort_by"), ufield("&lt;'\"")),
+    ]
+
+
 def tokenizer_crosscheck(V, tier, seed):
     """The pages the implementation returned, tokenised by the tokenizer extracted from Coq,
     must give the chunks the Rust engine printed."""
@@ -216,8 +272,8 @@ def tokenizer_crosscheck(V, tier, seed):
     ts = re.compile(r"\d{4}-\d\d-\d\d(T|%20;)\d\d:\d\d:\d\d(\.\d+)?(%2b;00:00|%20;UTC)")
     for c, a, b in zip(cases, coq, rust):
         a, b = ts.sub("TS", a), ts.sub("TS", b)
-        keep = [t for t in b.split() if t.startswith("T=") or t in ("L-", "I-", "Lpanic", "Ipanic")]
-        pages += sum(1 for t in b.split() if t in ("L200", "I200"))
+        keep = [t for t in b.split() if t.startswith("T=") or t in ("L-", "I-", "Q-", "Lpanic", "Ipanic", "Qpanic")]
+        pages += sum(1 for t in b.split() if t.startswith(("L200", "I200", "Q200")))
         if a.split() != keep and len(fails) < 3:
             fails.append({"what": "tokenizer port disagrees with the extracted tokenizer on a real page", "kind": "correspondence",
                           "case": c, "coq": a[:2000], "rust": " ".join(keep)[:2000], "suffix": "no-failing-input-found"})
